@@ -54,6 +54,11 @@ class C14(Prop):
         for i in range(8 if quick else 120):
             c, a = combos[i % len(combos)]
             src = g.rand_call(); dst = g.rand_call() if rng.random() < 0.7 else ""
+            if i % 4 == 3:                                      # a space inside a callsign is the alphabet's digit 0 ("M17 A")
+                a_, b_ = g.rand_call()[:4], g.rand_call()[:4]
+                dst = a_ + " " + b_
+                if i % 8 == 7:
+                    src = b_ + " " + a_
             keyups = rng.choice([1, 1, 2, 3])
             plan = [(rng.choice([0, 1, 2, 4, 6, 7, 13]), rng.choice([0, 0, 1, 159, 160, 319, rng.randrange(320)])) for _ in range(keyups)]
             if i == 1:
